@@ -170,10 +170,22 @@ def main(argv):
             return EXIT_HARNESS_ERROR
 
         # longest budgets first
-        jobs.sort(key=lambda j: (-j['budget'], j['twin']))
+        jobs.sort(key=lambda j: (-j['budget'], j['key'], j['twin']))      # a twin runs right after its harness
         results = {}
+        # wall-clock cap of a whole check (thorough tier: 25 min unless VERIF_MAX_WALL says otherwise): instances that
+        # have not STARTED by then are reported as not run (inconclusive), never as discharged
+        max_wall = float(os.environ.get('VERIF_MAX_WALL', '1500' if tier == 'thorough' else '0') or 0)
+
+        def run_capped(j):
+            if max_wall and time.time() - t_start > max_wall:
+                return dict(module=j['module'], function=j['function'], item=j['item'], twin=j['twin'],
+                            verdict='not_run', messages=['not started: the check reached its wall-clock cap of %ds' % max_wall],
+                            cex=None, paths=0, nontrivial_paths=0, z3_checks=0, z3_seconds=0.0, targets={}, glue=[],
+                            cpu_s=0.0, wall_s=0.0,
+                            job={k: j[k] for k in ('module', 'function', 'item', 'twin', 'budget', 'tier')})
+            return run_worker(j, workdir)
         with concurrent.futures.ThreadPoolExecutor(max_workers=jobs_n) as ex:
-            futs = {ex.submit(run_worker, j, workdir): j for j in jobs}
+            futs = {ex.submit(run_capped, j): j for j in jobs}
             for fut in concurrent.futures.as_completed(futs):
                 j = futs[fut]
                 results[(j['key'], j['twin'])] = fut.result()
@@ -231,6 +243,8 @@ def main(argv):
                     status = 'discharged'
             elif meta.get('hunt'):
                 status, detail = 'hunted', 'bug-hunting only (input realised at a C boundary): %s paths, no counterexample' % r.get('paths')
+            elif r['verdict'] == 'not_run':
+                status, detail = 'inconclusive', 'NOT RUN: the check reached its wall-clock cap before this instance started'
             else:
                 status, detail = 'inconclusive', 'CrossHair verdict=%s after %s paths / %.0fs cpu' % (
                     r['verdict'], r.get('paths'), r.get('cpu_s', 0))
